@@ -160,6 +160,7 @@ class Executor:
         self.base_facts = list(assumptions or [])
         self.deadline = None
         self.merge = True
+        self.obj_bases = {}
         self.merged = 0
         self._simple_cache = {}
 
@@ -385,22 +386,56 @@ class Executor:
         elif isinstance(p.obj, tuple):
             v = IV(64, c=0x7F000000 + (hash(p.obj[1]) & 0xFFFF) * 16)
         else:
-            v = self.dom.binop("add", IV(64, c=st.mem[p.obj].base), p.off)
+            v = self.dom.binop("add", self.base_of(st, p.obj), p.off)
         if bits < 64:
             v = self.dom.trunc(v, bits)
         elif bits > 64:
             v = self.dom.zext(v, bits)
         return v
 
+    def conc(self, iv):
+        """try to make a symbolic IV concrete by simplification (e.g. (base+8)-(base+3))"""
+        if not isinstance(iv, IV) or iv.c is not None:
+            return iv
+        try:
+            if self.mode == "bv":
+                r = z3.simplify(self.dom.E(iv))
+                if z3.is_bv_value(r):
+                    return IV(iv.bits, c=r.as_long())
+            else:
+                e = self.dom.S(iv) if iv.pref == "s" else self.dom.U(iv)
+                r = z3.simplify(e)
+                if z3.is_int_value(r):
+                    return IV(iv.bits, c=r.as_long())
+        except Exception:
+            pass
+        return iv
+
+    def base_of(self, st, oid):
+        """address of an object: a symbolic, 16-aligned, non-null value (one variable per object) so that results
+        which depend on where objects live are recognisably address-dependent"""
+        if oid in self.obj_bases:
+            return self.obj_bases[oid]
+        d = self.dom
+        b = d.fresh(64, "addr")
+        if self.mode == "bv":
+            e = d.E(b)
+            self.base_facts.append(z3.Extract(3, 0, e) == 0)
+            self.base_facts.append(z3.UGE(e, z3.BitVecVal(0x10000, 64)))
+            self.base_facts.append(z3.ULE(e, z3.BitVecVal(0x7FFFFFFF0000, 64)))
+        else:
+            u = d.U(b)
+            self.base_facts.append(u % 16 == 0)
+            self.base_facts.append(u >= 0x10000)
+            self.base_facts.append(u <= 0x7FFFFFFF0000)
+        self.obj_bases[oid] = b
+        return b
+
     def inttoptr(self, st, v):
         if v.bits != 64:
             v = self.dom.zext(v, 64) if v.bits < 64 else self.dom.trunc(v, 64)
-        if v.c is not None:
-            if v.c == 0:
-                return Ptr(None, IV(64, c=0))
-            oid = v.c // 0x100000
-            if oid in st.mem:
-                return Ptr(oid, IV(64, c=v.c - st.mem[oid].base))
+        if v.c is not None and v.c == 0:
+            return Ptr(None, IV(64, c=0))
         raise IRUnsupported("inttoptr of a symbolic integer")
 
     def ptr_cmp(self, st, pred, a, b):
@@ -534,6 +569,8 @@ class Executor:
         if isinstance(p.obj, tuple):
             raise IRUnsupported("data access through a function pointer")
         obj = st.mem[p.obj]
+        if p.off.c is None:
+            p.off = self.conc(p.off)
         if p.off.c is not None:
             return [(True, p.off.sc)]
         if self.mode != "bv":
@@ -1415,7 +1452,9 @@ class Executor:
             bs = d.to_bytes(a)
             return d.from_bytes(list(reversed(bs)), a.bits)
         if n1 in ("memcpy", "memmove"):
-            dst, src, ln = args[0], args[1], args[2]
+            dst, src, ln = args[0], args[1], self.conc(args[2])
+            dst = Ptr(dst.obj, self.conc(dst.off))
+            src = Ptr(src.obj, self.conc(src.off))
             if ln.c is None:
                 raise IRUnsupported("memcpy with symbolic length")
             if ln.c == 0:
@@ -1467,7 +1506,8 @@ class Executor:
                 dobj.cells[d0 + ro] = (csz, cv)
             return None
         if n1 == "memset":
-            dst, val, ln = args[0], args[1], args[2]
+            dst, val, ln = args[0], args[1], self.conc(args[2])
+            dst = Ptr(dst.obj, self.conc(dst.off))
             if ln.c is None or dst.off.c is None:
                 raise IRUnsupported("memset with symbolic length/offset")
             if ln.c == 0:
